@@ -772,6 +772,48 @@ def init_results_checked(ctx, tag):
                           "in the map (dry, service, post_action_delay) keep their defaults" % f.text(i)[:60])
     ctx.counters[tag + "_init_call_sites"] = n
     ctx.floor(tag + "_init_call_sites", 3, "call sites of BasePlugin::init/initPlugin in the library")
+    # ... and a plugin compiled from the configuration is initialised through initPlugin(), which RECORDS its arguments: the per-cgroup
+    # instances (actions in registerRunnableRulesetForCgroupPath, detectors in DetectorGroup's copy constructor) are built from
+    # getPluginArgs() of the compiled plugin.  A direct init() there leaves the record empty and every instance runs on defaults
+    # (dry=false, no threshold ...).  Direct init() is what the instance builders themselves use (their objects are never copied from).
+    DIRECT_INIT_OK = ("Oomd::Engine::BasePlugin::initPlugin", "Oomd::Engine::Ruleset::registerRunnableRulesetForCgroupPath", "Oomd::Engine::DetectorGroup::DetectorGroup")
+    from ..inline import known_functions
+    kk_ = known_functions()
+    kf_ = kk_[0] if kk_ else None
+    callers_ = {}
+    for f in P.fns.values():
+        own_ = f
+        while own_.kind == "lambda" and own_.d.get("parentfn") in P.fns:
+            own_ = P.fns[own_.d["parentfn"]]
+        for i in f.calls():
+            callers_.setdefault(f.callee(i), set()).add(own_.pq)
+
+    def direct_ok(own, depth=0):
+        if own in DIRECT_INIT_OK:
+            return True
+        if depth < 3 and kf_ and own not in kf_ and callers_.get(own):
+            return all(direct_ok(o2, depth + 1) for o2 in callers_[own])
+        return False
+    n_direct = 0
+    for f in sorted(P.fns.values(), key=lambda x: (x.file, x.line)):
+        if not f.file.startswith("oomd/") or f.file.endswith("Test.cpp"):
+            continue
+        for i in f.calls():
+            nd = f.nodes[i]
+            if nd.get("cname") != "init" or "recv" not in nd or not nd.get("ccls", "").endswith("BasePlugin") or f.pos_of(i) is None:
+                continue
+            if f.nodes[f.strip(nd["recv"])]["k"] == "this":
+                continue
+            owner = f
+            while owner.kind == "lambda" and owner.d.get("parentfn") in P.fns:
+                owner = P.fns[owner.d["parentfn"]]
+            n_direct += 1
+            ctx.check(direct_ok(owner.pq), "%s:configured-args-are-recorded:%s" % (tag, short(owner)), "who-may-call", f.loc(i),
+                      "init() is called directly only by initPlugin() and by the builders of per-cgroup instances",
+                      "%s initialises a plugin with init() instead of initPlugin(): the configured arguments are not recorded, so every per-cgroup "
+                      "instance built from getPluginArgs() of this plugin gets none of them (a dry=true kill plugin kills for real, thresholds fall "
+                      "back to their defaults)" % owner.pq)
+    ctx.counters[tag + "_direct_init_sites"] = n_direct
     # ... and the plugin that is kept is one whose LAST init succeeded: a local plugin that goes into a container after an init on it
     # failed (without having been re-created in between) runs with whatever the parser had filled in before it stopped
     n_keep = 0
@@ -796,6 +838,10 @@ def init_results_checked(ctx, tag):
             for i in f.calls("reset"):
                 if f.text(f.nodes[i].get("recv", -1)) == V:
                     ev.setdefault(i, []).append(("clear", "refused"))
+            for d_ in f.all("decl"):
+                # a declaration inside a loop body makes a fresh object on every iteration
+                if any(v_["name"] == V for v_ in f.nodes[d_].get("vars", [])) and f.pos_of(d_) is not None:
+                    ev.setdefault(d_, []).append(("clear", "refused"))
             fl = Flow(P, f, events=ev, cg=ctx.cg, edge_tokens=lambda k, p: ["refused"] if (isinstance(k, str) and FAIL.match(k) and p is False) else None)
             for i in keeps:
                 n_keep += 1
